@@ -74,6 +74,7 @@ fn main() {
         "shutdown" => shutdown::run(&args),
         "registry" => registry::run(&args),
         "name_reuse" => registry::name_reuse(&args),
+        "name_clash" => registry::name_clash(&args),
         "life" => life::run(&args),
         "kill_window" => life::kill_window(&args),
         "tl_queued_cancel" => life::tl_queued_cancel(&args),
@@ -127,6 +128,7 @@ fn main() {
         "codec" => cluster::codec(&args),
         "read_n" => cluster::read_n(&args),
         "reader_actor" => cluster::reader_actor(&args),
+        "frame_limit" => cluster::frame_limit(&args),
         other => {
             eprintln!("unknown scenario {other}");
             std::process::exit(3);
